@@ -26,7 +26,6 @@ func C16_Legacy() {
 		caches: []int{0}, fast: []bool{false}, thresh: []int{0}, auditOld: true, refHash: true}
 	maxL := 2
 	if vTier() == "thorough" {
-		cfg.nKeys = 3
 		cfg.caches = []int{0, 10000}
 		cfg.fast = []bool{false, true}
 	}
